@@ -35,6 +35,11 @@ TEXT = {
             'its base configuration, leaders are checked for at most one uncommitted change and none before an own-term commit, majorities are '
             'counted over the committing node\'s member set, and at rest all members must report the set the committed log defines; C01-C05 '
             'oracles run unchanged.', '6/C10'),
+    'C11': ('Every argument size around k*batch (k=1..4, +-64 bytes, all six batch sizes) is enumerated, plus random sizes and shapes; a monitor '
+            'compares the arguments every replica executes with the submitted ones, counts executions per replica and treats any exception escaping a '
+            'step as a violation.', '6/C11'),
+    'C13': ('Two real TcpConnection objects on simulated sockets; an adversary fragments the stream arbitrarily and rewrites frames in flight; the '
+            'delivered sequence is compared with the sent one after every action, invalid frames must end in exactly one disconnect.', '6/C13'),
     'C12': ('Commands that raise deterministically (user method and documented battery errors) are mixed into adversarial runs with restarts from '
             'the journal; a re-executed position, a stalled applied index (C05 stuck oracle), diverging digests (C01 oracle, model swallows the same '
             'exception) or a wrong/duplicate callback (C02 oracle) is a violation.', '6/C12'),
@@ -58,6 +63,8 @@ TECH = {
     'C07': 'runtime monitor: vote and term accounting across process incarnations',
     'C09': 'runtime monitor: snapshot/dump-file decoding vs reference model at the snapshot position, after every step',
     'C10': 'runtime monitor: member set vs fold of the log after every step, change gate, agreement at rest, plus C01-C05 monitors',
+    'C11': 'runtime monitor over an enumerated size sweep: executed vs submitted arguments, exactly-once count, escaped exceptions',
+    'C13': 'history oracle (delivered sequence is a prefix of the sent one) under adversarial fragmentation and targeted corruption',
     'C12': 'runtime monitor: re-execution / stall / divergence detection with raising commands in the workload',
     'C08': 'reference-model monitor + crash-point enumeration by file snapshots at every storage primitive',
     'C15': 'model-based runtime comparison with builtin containers (direct, snapshot round trip, replicated)',
@@ -106,6 +113,10 @@ def main():
              'kind_free_text': 'real SyncObj/journal/serializer per node on a simulated message-level transport under virtual time; monitors after every step'},
             {'name': 'E3 journalfuzz', 'path': 'rv/journalfuzz.py', 'serves_properties': ['C08'],
              'kind_free_text': 'FileJournal vs list model with kill-point enumeration by file snapshots; SIGKILL stress'},
+            {'name': 'E1 argsweep', 'path': 'rv/argsweep.py', 'serves_properties': ['C11'],
+             'kind_free_text': 'scripted healthy-network E1 runs over an enumerated argument size sweep'},
+            {'name': 'E4 framefuzz', 'path': 'rv/framefuzz.py', 'serves_properties': ['C13'],
+             'kind_free_text': 'real TcpConnection pair on simulated sockets (rv/socksim.py), adversarial fragmentation and corruption'},
             {'name': 'E5 batterymbt', 'path': 'rv/batterymbt.py', 'serves_properties': ['C15'],
              'kind_free_text': 'model-based testing of the batteries, directly and through E1'},
         ],
